@@ -17,6 +17,9 @@ template<class T, size_t D> using Pt = std::array<T, D>;
 
 template<class T, size_t D, size_t... I> auto to_tuple_impl(const Pt<T, D> &p, std::index_sequence<I...>) { return std::make_tuple(p[I]...); }
 template<class T, size_t D> auto to_tuple(const Pt<T, D> &p) { return to_tuple_impl<T, D>(p, std::make_index_sequence<D>()); }
+template<class U, class T, size_t D, size_t... I> auto to_tuple_as_impl(const Pt<T, D> &p, std::index_sequence<I...>) { return std::make_tuple(U(p[I])...); }
+/// the same point as a tuple of a narrower element type U (the caller has checked that every coordinate fits)
+template<class U, class T, size_t D> auto to_tuple_as(const Pt<T, D> &p) { return to_tuple_as_impl<U, T, D>(p, std::make_index_sequence<D>()); }
 template<class T, size_t D, class Tup, size_t... I> Pt<T, D> from_tuple_impl(const Tup &t, std::index_sequence<I...>) { return Pt<T, D>{T(std::get<I>(t))...}; }
 template<class T, size_t D, class Tup> Pt<T, D> from_tuple(const Tup &t) { return from_tuple_impl<T, D>(t, std::make_index_sequence<D>()); }
 
@@ -72,10 +75,12 @@ void md_case(Ctx &c) {
         for (size_t i = 0; i + 1 < bx.size(); i += 2) mc.boxes.emplace_back(bx[i], bx[i + 1]);
         mc.probes = parse_pts(c.given->get("probes"));
         mc.family = c.given->one_str("family", "spec");
+        if (mc.probes.empty()) mc.probes = mc.pts; // witnesses with more than 3000 probes are stored without them: every stored point is probed
     } else {
         int fam = int(r.below(6));
         if (r.chance(1, 40)) fam = 6;
         else if (r.chance(1, 40)) fam = 7;
+        else if (r.chance(1, 8)) fam = 8;
         size_t n;
         T u; // coordinates drawn from [0, u]
         auto rnd_pt = [&](T lim) {
@@ -163,6 +168,42 @@ void md_case(Ctx &c) {
                 for (size_t i = tail; i < n; ++i) mc.pts.push_back(rnd_pt(u));
                 break;
             }
+            case 8: { // 3..9 small dense clusters at REGULAR, far-apart spacing (on the diagonal, along one axis, or on a
+                // lattice): the Morton codes form equally sized groups separated by equal, enormous gaps, so that one
+                // segment spans several groups with commensurable distances between its pivots - predictions that are
+                // integers exactly, the place where the rounding of the intercept decides on which side of the band they fall
+                mc.family = "regular_far_clusters";
+                u = maxc;
+                size_t k = 3 + r.below(7);
+                uint64_t spacing = std::max<uint64_t>(1, uint64_t(maxc) / (k + r.below(3)));
+                switch (r.below(4)) { // as is; a power of two; a power of two minus one (every coordinate bit below it set)
+                    case 0: spacing = uint64_t(1) << (63 - __builtin_clzll(spacing | 1)); break;
+                    case 1: case 2: spacing = std::max<uint64_t>(1, (uint64_t(1) << (63 - __builtin_clzll(spacing | 1))) - 1); break;
+                    default: break;
+                }
+                T w = T(std::min<uint64_t>(std::max<uint64_t>(spacing / 4, 1), r.pick<uint64_t>({1, 3, 7, 31, 63})));
+                size_t per = r.chance(1, 2) ? 4 + r.below(120) : 300 + r.below(2500); // few or MANY segments per cluster (upper levels see clusters of segment keys)
+                int layout = int(r.below(3));
+                size_t ax = r.below(D);
+                T off = T(r.below(std::min<uint64_t>(spacing, 1000)));
+                n = 0;
+                for (size_t j = 0; j < k; ++j) {
+                    P centre{};
+                    for (size_t d = 0; d < D; ++d) {
+                        uint64_t v = layout == 0 ? j * spacing : layout == 1 ? (d == ax ? j * spacing : uint64_t(off)) : ((j >> d) & 1) * spacing * (k / 2);
+                        centre[d] = T(std::min<uint64_t>(uint64_t(maxc) - uint64_t(w), v));
+                    }
+                    size_t cnt = r.chance(1, 2) ? per : 1 + r.below(per);
+                    for (size_t i = 0; i < cnt; ++i, ++n) {
+                        P p = centre;
+                        for (size_t d = 0; d < D; ++d) p[d] = T(uint64_t(p[d]) + r.below(uint64_t(w) + 1));
+                        mc.pts.push_back(p);
+                    }
+                }
+                // every stored point is a membership probe: shuffle, so that the first 600 are spread over all clusters
+                for (size_t i = mc.pts.size(); i > 1; --i) std::swap(mc.pts[i - 1], mc.pts[r.below(i)]);
+                break;
+            }
             default: { // tiny point sets
                 mc.family = "tiny";
                 u = r.chance(1, 2) ? maxc : T(std::min<uint64_t>(maxc, 7));
@@ -210,8 +251,9 @@ void md_case(Ctx &c) {
             mc.boxes.emplace_back(a, bb);
         }
         // membership probes
+        const size_t probe_cap = mc.family == "regular_far_clusters" ? 200000 : 600; // there, every stored point is probed
         for (auto &p : mc.pts) {
-            if (mc.probes.size() > 600) break;
+            if (mc.probes.size() > probe_cap) break;
             mc.probes.push_back(p);
             for (size_t d = 0; d < D; ++d) { // axis neighbours
                 P q = p;
@@ -260,7 +302,22 @@ void md_case(Ctx &c) {
     using Tup = decltype(to_tuple<T, D>(mc.pts[0]));
     std::vector<Tup> tp;
     for (auto &p : mc.pts) tp.push_back(to_tuple<T, D>(p));
-    std::unique_ptr<Idx> xp(new Idx(tp.begin(), tp.end()));
+    std::unique_ptr<Idx> xp;
+    {
+        // The constructor accepts any tuple-like element type; when every coordinate fits a narrower unsigned type, a third
+        // of the cases hand the points over as tuples of THAT type (uint32_t for a 64-bit index, uint16_t for a 32-bit one).
+        using U = std::conditional_t<sizeof(T) == 8, uint32_t, uint16_t>;
+        bool fits = true;
+        for (auto &p : mc.pts)
+            for (size_t d = 0; d < D; ++d) fits = fits && uint64_t(p[d]) <= uint64_t(std::numeric_limits<U>::max());
+        if (fits && mix(c.input_hash, 0x7a77) % 3 == 0) {
+            std::vector<decltype(to_tuple_as<U, T, D>(mc.pts[0]))> np;
+            for (auto &p : mc.pts) np.push_back(to_tuple_as<U, T, D>(p));
+            xp.reset(new Idx(np.begin(), np.end()));
+            c.count("built_from_tuples_of_narrower_type");
+        } else
+            xp.reset(new Idx(tp.begin(), tp.end()));
+    }
     // half of the cases query a copied / moved-to / assigned-to / relocated object whose source is gone (vf_life.hpp)
     xp = object_lifecycle(c, std::move(xp), n > (size_t(1) << 20) ? 0 : int(mix(c.input_hash, 0x11fec7c1e) % 8));
     Idx &x = *xp;
